@@ -1009,7 +1009,20 @@ func runKernelScenario(sc Scenario, out *bufio.Writer) {
 		}
 	}
 	monAt := s.At("mon")
+	// likewise an EnableVerification call that is never answered although the monitor sits idle at its select
+	var enStalled []string
+	// (derr != nil: the scheduler released the monitor to take a control message and it never reached its next gate)
+	if gated && !k.monExited && !k.ctxDone && (derr == nil && monAt == "mon.select" && k.steps < 4*maxSteps(sc) || derr != nil && monAt == "") {
+		for _, pn := range procs {
+			if k.curKind[pn] == "enable" && !s.done[pn] && !k.cancelled[pn] && s.At(pn) == "" {
+				enStalled = append(enStalled, pn+" at "+s.At(pn))
+			}
+		}
+	}
 	s.mu.Unlock()
+	if len(enStalled) > 0 {
+		s.anomaly("enstall", fmt.Sprintf("no move is enabled, the monitor is alive and idle, nothing was cancelled, but EnableVerification calls are not answered: %v", enStalled))
+	}
 	if len(stalled) > 0 {
 		s.anomaly("stall", fmt.Sprintf("no move is enabled, the monitor is alive (at %q) and nothing was cancelled, but reporters cannot finish: %v", monAt, stalled))
 	}
